@@ -1,7 +1,8 @@
 (* C03 — the statements of Properties/C03.v, assembled from the proof files. *)
-From Coq Require Import List Arith NArith Bool Lia ZifyN ZifyNat ZifyBool.
-From FS Require Import Sx Model.Path Model.Stat Model.Validator Model.Fs Model.DiskWriterFs.
-From FS Require Import Proofs.Lex Proofs.PathP Proofs.FsP Proofs.FsReachP Proofs.RecvP Proofs.FsWfP Proofs.RecvOldP.
+From Coq Require Import List Arith NArith Bool Lia ZifyN ZifyNat ZifyBool String Ascii.
+From FS Require Proofs.MetaOnlyP.
+From FS Require Import Sx Model.Path Model.Stat Model.Validator Model.Fs Model.DiskWriterFs Model.RecvMeta.
+From FS Require Import Proofs.Lex Proofs.PathP Proofs.ValidatorP Proofs.FsP Proofs.FsReachP Proofs.RecvP Proofs.FsWfP Proofs.RecvOldP Proofs.RecvMetaP.
 Import ListNotations.
 Open Scope N_scope.
 Open Scope bool_scope.
@@ -20,38 +21,87 @@ Proof.
   intros i Hi [H|H]; [apply (st_frame _ _ _ _ _ S i H Hi)|apply (st_nd _ _ _ _ _ S i Hi H)].
 Qed.
 
-Theorem receiver_contained_merge :
-  forall (f : fs) (root D : N) (dl : bool) (tmps : list bytes) (pks : list packet) (j : nat),
-    wf D f -> (forall t, tmpname tmps t -> okname t) -> tmp_unused D f tmps ->
-    Forall (clean_packet tmps) pks ->
-    outside_unchanged D f (recv_fs_prefix f root D dl true tmps pks j).
-Proof.
-  intros f root D dl tmps pks j W Ht Hu Hc. unfold recv_fs_prefix.
-  apply (step_outside D TAll). apply (recv_merge_step D root f tmps dl W Ht pks (Some j) Hu Hc).
-Qed.
+(* what the theorems ask of ReceiveOpt.Filter: the copy of the stat keeps type bits and link name,
+   and what is rejected is rejected with everything below it *)
+Definition filter_ok (fl : rfilter) : Prop :=
+  (forall s, st_mode (f_map fl s) = st_mode s) /\ (forall s, st_linkname (f_map fl s) = st_linkname s)
+  /\ (forall p q, ok_path p = true -> ok_path q = true -> f_rej fl p = true ->
+        is_prefix (comps p) (comps q) -> f_rej fl q = true).
+
+Lemma no_filter_ok : filter_ok no_filter.
+Proof. split; [reflexivity|]. split; [reflexivity|]. intros p q _ _ H. discriminate. Qed.
 
 (* both settings of ReceiveOpt.Merge: without Merge the old content of dest is walked first and
    diffed against the stream (entries the stream does not name are removed, entries it names
    with the same metadata are left alone); Proofs/RecvOldP.v carries the invariant of that
    listing through the loop *)
+Theorem receiver_contained_f :
+  forall (fl : rfilter) (f : fs) (root D : N) (dl merge : bool) (tmps : list bytes) (pks : list packet) (j : nat),
+    filter_ok fl ->
+    wf D f -> (forall t, tmpname tmps t -> okname t) -> tmp_unused D f tmps ->
+    Forall (clean_packet tmps fl) pks ->
+    outside_unchanged D f (r_fs (recv_run_f fl f root D dl merge tmps pks (Some j))).
+Proof.
+  intros fl f root D dl merge tmps pks j (H1 & H2 & H3) W Ht Hu Hc. apply (step_outside D TAll). destruct merge.
+  - apply (recv_merge_step D root f tmps dl W fl H1 H2 H3 Ht pks (Some j) Hu Hc).
+  - apply (recv_nomerge_step D root f tmps dl W fl H1 H2 H3 Ht Hu pks (Some j) Hc).
+Qed.
+
 Theorem receiver_contained_proof :
   forall (f : fs) (root D : N) (dl merge : bool) (tmps : list bytes) (pks : list packet) (j : nat),
     wf D f -> (forall t, tmpname tmps t -> okname t) -> tmp_unused D f tmps ->
-    Forall (clean_packet tmps) pks ->
+    Forall (clean_packet tmps no_filter) pks ->
     outside_unchanged D f (recv_fs_prefix f root D dl merge tmps pks j).
 Proof.
-  intros f root D dl merge tmps pks j W Ht Hu Hc. destruct merge.
-  - apply receiver_contained_merge; auto.
-  - unfold recv_fs_prefix. apply (step_outside D TAll).
-    apply (recv_nomerge_step D root f tmps dl W Ht Hu pks (Some j) Hc).
+  intros. unfold recv_fs_prefix, recv_run. apply receiver_contained_f; auto. apply no_filter_ok.
+Qed.
+
+(* Receive with its options: MetadataOnly (the metadata branch of the loop and the epilogue that
+   writes dest/.fsutil-metadata, Proofs/RecvMetaP.v) and Filter *)
+Theorem receiver_contained_opt :
+  forall (fl : rfilter) (mo : option (stat -> bool)) (f : fs) (root D : N) (dl merge : bool) (tmps : list bytes)
+         (pks : list packet) (j : nat),
+    filter_ok fl ->
+    wf D f -> (forall t, tmpname tmps t -> okname t) -> tmp_unused D f tmps ->
+    Forall (clean_packet tmps fl) pks ->
+    outside_unchanged D f (recv_fs_prefix_opt f root D dl merge mo fl tmps pks j).
+Proof.
+  intros fl mo f root D dl merge tmps pks j Hf W Ht Hu Hc. unfold recv_fs_prefix_opt. destruct mo as [sel|].
+  - destruct Hf as (H1 & H2 & H3). apply (step_outside D TAll).
+    apply (recv_meta_step D root f tmps dl merge fl sel W H1 H2 H3 Ht Hu pks (Some j) Hc).
+  - cbn [recv_run_opt]. apply receiver_contained_f; auto.
+Qed.
+
+(* the filters of the correspondence run meet the hypothesis *)
+Lemma below_any_closed ps p q : ok_path p = true -> ok_path q = true ->
+  below_any ps p = true -> is_prefix (comps p) (comps q) -> below_any ps q = true.
+Proof.
+  intros Hp Hq Hb [y Hy]. unfold below_any in *. apply existsb_exists in Hb. destruct Hb as (r & Hr & Hb).
+  apply existsb_exists. exists r. split; [exact Hr|].
+  destruct y as [|y0 y'].
+  - rewrite app_nil_r in Hy. apply comps_inj in Hy. subst q. exact Hb.
+  - assert (Hu : MetaOnly.under p q = true).
+    { apply MetaOnlyP.under_prefix. exists (y0 :: y'). split; [discriminate|exact Hy]. }
+    unfold MetaOnly.under in Hu. apply orb_true_iff. right.
+    apply orb_true_iff in Hb. destruct Hb as [Hb|Hb].
+    + apply bytes_eqb_eq in Hb. subst r. exact Hu.
+    + apply PathP.has_prefix_app in Hb. destruct Hb as [t Ht]. apply PathP.has_prefix_app in Hu. destruct Hu as [u Hu].
+      subst q p.
+      assert (E : (((r ++ [sep]) ++ t) ++ [sep]) ++ u = (r ++ [sep]) ++ (t ++ [sep] ++ u)) by (rewrite <- !app_assoc; reflexivity).
+      rewrite E. apply MetaOnlyP.has_prefix_self.
+Qed.
+
+Lemma subtree_filter_ok ps ua ga : filter_ok (subtree_filter ps ua ga).
+Proof.
+  split; [reflexivity|]. split; [reflexivity|]. intros p q Hp Hq Hb Hpre. cbn in *. apply (below_any_closed ps p q); auto.
 Qed.
 
 (* the same with the hypotheses in executable form *)
-Definition domain_b (fuel : nat) (f : fs) (D : N) (tmps : list bytes) (pks : list packet) : bool :=
-  wf_b fuel f D && tmps_ok_b tmps && tmp_unused_b fuel f D tmps && forallb (clean_packet_b tmps) pks.
+Definition domain_b (fuel : nat) (f : fs) (D : N) (tmps : list bytes) (fl : rfilter) (pks : list packet) : bool :=
+  wf_b fuel f D && tmps_ok_b tmps && tmp_unused_b fuel f D tmps && forallb (clean_packet_b tmps fl) pks.
 
-Lemma domain_b_ok fuel f D tmps pks : domain_b fuel f D tmps pks = true ->
-  wf D f /\ (forall t, tmpname tmps t -> okname t) /\ tmp_unused D f tmps /\ Forall (clean_packet tmps) pks.
+Lemma domain_b_ok fuel f D tmps fl pks : domain_b fuel f D tmps fl pks = true ->
+  wf D f /\ (forall t, tmpname tmps t -> okname t) /\ tmp_unused D f tmps /\ Forall (clean_packet tmps fl) pks.
 Proof.
   unfold domain_b. intros H.
   apply andb_true_iff in H. destruct H as [H H4].
@@ -59,4 +109,46 @@ Proof.
   apply andb_true_iff in H. destruct H as [H1 H2].
   split; [apply (wf_b_ok fuel); auto|]. split; [apply tmps_ok_b_ok; auto|].
   split; [apply (tmp_unused_b_ok fuel); auto|apply clean_packets_b_ok; auto].
+Qed.
+
+
+(* ---- a Filter that rejects a directory but not what lies below it ---- *)
+Fixpoint bs (s : string) : bytes :=
+  match s with EmptyString => [] | String a r => N_of_ascii a :: bs r end.
+
+Definition run1 (x : fs * result) : fs := fst x.
+(* /out ; /w/dest with d -> /out (symlink) *)
+Definition rf_fs : fs :=
+  let c := ctx_init in
+  let f := run1 (sys_mkdir c fs_init (bs "/out") 493) in
+  let f := run1 (sys_mkdir c f (bs "/w") 493) in
+  let f := run1 (sys_mkdir c f (bs "/w/dest") 493) in
+  run1 (sys_symlink c f (bs "/out") (bs "/w/dest/d")).
+Definition rf_D : N := match resolve_ino ctx_init rf_fs (bs "/w/dest") true with inl i => i | inr _ => 0 end.
+Definition rf_stat (p : string) (mode : N) : stat :=
+  {| st_path := bs p; st_mode := mode; st_uid := 0; st_gid := 0; st_size := 0; st_mtime := 1000000;
+     st_linkname := []; st_devmajor := 0; st_devminor := 0; st_xattrs := [] |}.
+Definition rf_pks : list packet :=
+  [ PStat (Some (rf_stat "d" (ModeDir + 493))); PStat (Some (rf_stat "d/x" 420)); PStat None; PFin ].
+Definition rf_fl : rfilter := exact_filter [bs "d"] 0 0.
+
+Theorem receiver_contained_any_filter_refuted_proof :
+  exists (fl : rfilter) (f : fs) (root D : N) (tmps : list bytes) (pks : list packet) (j : nat),
+    (forall s, st_mode (f_map fl s) = st_mode s) /\ (forall s, st_linkname (f_map fl s) = st_linkname s)
+    /\ wf D f /\ (forall t, tmpname tmps t -> okname t) /\ tmp_unused D f tmps
+    /\ Forall (clean_packet tmps fl) pks
+    /\ ~ outside_unchanged D f (recv_fs_prefix_opt f root D false true None fl tmps pks j).
+Proof.
+  exists rf_fl, rf_fs, 1, rf_D, [], rf_pks, 10%nat.
+  split; [reflexivity|]. split; [reflexivity|].
+  split; [apply (wf_b_ok 8); vm_compute; reflexivity|].
+  split; [apply tmps_ok_b_ok; vm_compute; reflexivity|].
+  split; [apply (tmp_unused_b_ok 8); vm_compute; reflexivity|].
+  split; [apply clean_packets_b_ok; vm_compute; reflexivity|].
+  intros [H _].
+  assert (Hnr : ~ reach rf_D rf_fs 2).
+  { intros R. pose proof (closed_reach rf_fs rf_D (ins 8 rf_fs rf_D) (ins_head 8 rf_fs rf_D) ltac:(vm_compute; reflexivity) 2 R) as Hin.
+    apply memN_In in Hin. vm_compute in Hin. discriminate. }
+  specialize (H 2 ltac:(vm_compute; reflexivity) (or_introl Hnr)).
+  vm_compute in H. discriminate.
 Qed.
